@@ -246,6 +246,8 @@ package flags
 //@   traced
 //@ assumed func (option *Option) call(value *string) (err error)
 //@   traced
+//@   at call convert #2: key == strings.SplitN(val, ":", 2)[0]
+//@   at call convert #3: value == ite(len(strings.SplitN(val, ":", 2)) == 2, strings.SplitN(val, ":", 2)[1], "")
 //@   ensures is(err, *Error) ==> as(err, *Error) != nil
 //@   ensures !isTyped(err, ErrUnknownFlag)
 //@ assumed func (p *Parser) marshalError(option *Option, err error) (e *Error)
@@ -453,6 +455,7 @@ package flags
 //@   let pl0 := ncalls(Parser.parseLong)
 //@   let ps0 := ncalls(Parser.parseShort)
 //@   let cv0 := nfails(convert)
+//@   let uh0 := ncalls(Parser.UnknownOptionHandler)
 //@   let est0 := ncalls(parseState.estimateCommand)
 //@   let fp0 := ncalls(Command.fillParseState)
 //@   let compl := os.Getenv("GO_FLAGS_COMPLETION") != ""
@@ -462,6 +465,7 @@ package flags
 //@   loop 2 invariant is(s.err, *Error) ==> as(s.err, *Error) != nil
 //@   loop 2 invariant forall(k, old(ncalls(Parser.parseLong)), ncalls(Parser.parseLong), okResult(p, callres(Parser.parseLong, k, 0)))
 //@   loop 2 invariant forall(k, old(ncalls(Parser.parseShort)), ncalls(Parser.parseShort), okResult(p, callres(Parser.parseShort, k, 0)))
+//@   loop 2 invariant p.Options&IgnoreUnknown != 0 ==> ncalls(Parser.UnknownOptionHandler) == old(ncalls(Parser.UnknownOptionHandler))
 //@   loop 2 decreases len(s.args)
 //@   loop 3 invariant s != nil && s.command != nil
 //@   loop 3 invariant ncalls(Command.fillParseState) > old(ncalls(Command.fillParseState)) && s.command == callarg(Command.fillParseState, ncalls(Command.fillParseState) - 1, 0)
@@ -482,8 +486,9 @@ package flags
 //@   ensures[C04] !compl ==> ncalls(Parser.printError) == pe0 + ite(err != nil && p.internalError == nil, 1, 0)
 //@   ensures[C04] !compl && err != nil && p.internalError == nil ==> callarg(Parser.printError, pe0, 1) == err
 //@   ensures[C19] p.internalError != nil ==> err == p.internalError && rest == nil
+//@   ensures[C03,C07] p.Options&IgnoreUnknown != 0 ==> ncalls(Parser.UnknownOptionHandler) == uh0
 //@   ensures[C08] !compl && p.internalError == nil ==> ncalls(Command.fillParseState) > fp0
-//@   ensures[C08] !compl && p.internalError == nil && err == nil ==> len(callarg(Command.fillParseState, ncalls(Command.fillParseState) - 1, 0).commands) == 0 || callarg(Command.fillParseState, ncalls(Command.fillParseState) - 1, 0).SubcommandsOptional
+//@   ensures[C08,C09] !compl && p.internalError == nil && err == nil ==> len(callarg(Command.fillParseState, ncalls(Command.fillParseState) - 1, 0).commands) == 0 || callarg(Command.fillParseState, ncalls(Command.fillParseState) - 1, 0).SubcommandsOptional
 //@   ensures[C08] ncalls(parseState.estimateCommand) <= est0 + 1 && (ncalls(parseState.estimateCommand) == est0 + 1 ==> err == callres(parseState.estimateCommand, est0, 0) && ncalls(Commander.Execute) == e0 && ncalls(Parser.CommandHandler) == h0)
 
 // ===================================================================
